@@ -350,6 +350,10 @@ class C14(LoopProp):
                 lens = [ob] * max(0, nfull) + ([rng.choice([0, 1, ob - 1])] if rng.random() < 0.8 else [])
                 L.append("cli d %d %d %d %d %s - %s %s" % (b, w, t, clean, hx(name), reply, ",".join(map(str, lens)) or "-"))
         L += wrap_cli_lines()
+        # directed: a download of a deeply nested path (longer than 255 bytes, still inside a 512-byte request): stored under its basename
+        long_name = "/".join(["a" * 100, "b" * 100, "c" * 100, "deep.bin"])
+        for (b, w) in [(512, 1), (8, 2)]:
+            L.append("cli d %d %d 5 1 %s - oack:blksize:%d,windowsize:%d %s" % (b, w, hx(long_name), b, w, ",".join([str(b)] * w + ["3"])))
         # directed: a peer that acknowledges fewer options than asked and then sends DATA longer than the block size the client is left with:
         # the client's receive buffer cuts them (recv_with_size), it neither fails nor stores the excess
         for line in ["cli d 511 4 1 0 %s - oack:windowsize:4 512,512,512,512,512,511", "cli d 16 3 5 0 %s - oack:windowsize:2 512,512,1",
